@@ -20,7 +20,7 @@ func init() { runners["C06"] = runC06 }
 const c06MaxCycles = 120
 
 func runC06(r *Result, thorough bool) {
-	r.Rule = "G2 runs of real cores (3-7 validators): adversarial prefix of 100-400 random exchanges with sync limits 1-5, failing pulls, a silent minority (< n/3) from a random point (in half of the runs preceded by a quiet period in which nodes become idle, and by a last act: the validator accepts a transaction, creates events, a live validator pulls them through a damaged answer, then silence), submissions and a join request; then fair all-pairs cycles (every live validator pulls from every other); " +
+	r.Rule = "G2 runs of real cores (3-7 validators): adversarial prefix of 100-400 random exchanges with sync limits 1-5, failing pulls, a silent minority (< n/3) from a random point (in half of the runs preceded by a quiet period in which nodes become idle, and by a last act: the validator accepts a transaction, creates events, a live validator pulls them through a damaged answer, then silence), submissions and a join request; then fair all-pairs cycles (every live validator pulls from every other); also prefixes that replay, as pulls on real cores, schedules found by a beam search for elections that stay open for many rounds (rounds decided before an earlier one), followed by a quiet network; " +
 		"oracle: within 120 cycles all live validators report busy() = false and have committed every transaction and membership request accepted by a live validator; the number of cycles needed is recorded. non-trivial: the prefix left at least one live node busy and the fair suffix ran"
 	rng := rand.New(rand.NewSource(r.Seed))
 	runs := 6
